@@ -78,6 +78,8 @@ inductive Tok
   | lp | rp | lk | rk | lb | rb | comma | colon | eql | dollar | bind | att | eqlre | neqre
   | sym (o : BinOp)                                          -- ADD … POW, EQLC, NEQ, … written with symbols
   | word (k : WKind) (text : String)
+  | lname (text : String)                                    -- IDENTIFIER lexed inside braces (lexInsideBraces: keywords are
+                                                             -- ignored there, the word may start with a digit)
   | str (v : String) (uok rok : Bool)
   | dur (secs : Option Nat)
   | err                                                      -- lexer error (the token stream ends here)
@@ -235,7 +237,7 @@ def printOffEx (v : Variant) (l : List Int) : List Tok :=
 def matchTok : MatchTy → Tok
   | .eq => .eql | .ne => .sym .neq | .re => .eqlre | .nre => .neqre
 
-def printMatcher (m : Matcher) : List Tok := [.word .ident m.name, matchTok m.ty, .str m.val true true]
+def printMatcher (m : Matcher) : List Tok := [.lname m.name, matchTok m.ty, .str m.val true true]
 
 /-- matchers the printer shows: the one that repeats the metric name is skipped
     (before the fix `__name__=""` was skipped as well when the selector has no name) -/
@@ -396,10 +398,10 @@ def mkMatcher (name : String) (op : Tok) (v : String) (uok rok : Bool) (ts : Lis
 
 /-- label_matcher -/
 def parseMatcher : List Tok → Option (Matcher × List Tok)
-  | .att :: .word .ident n :: op :: .str v uok rok :: ts => mkMatcher ("__" ++ n ++ "__") op v uok rok ts
-  | .word .ident n :: .bind :: .dollar :: .word .ident v :: ts =>
+  | .att :: .lname n :: op :: .str v uok rok :: ts => mkMatcher ("__" ++ n ++ "__") op v uok rok ts
+  | .lname n :: .bind :: .dollar :: .lname v :: ts =>
       some (⟨"__bind__", .eq, hexOfString (n ++ ":" ++ v)⟩, ts)
-  | .word .ident n :: op :: .str v uok rok :: ts => mkMatcher n op v uok rok ts
+  | .lname n :: op :: .str v uok rok :: ts => mkMatcher n op v uok rok ts
   | _ => none
 
 /-- label_match_list followed by `}` or `,}` -/
@@ -651,6 +653,25 @@ def parseFuel (f : Nat) (ts : List Tok) : Option Expr :=
     stream with a lexer error is rejected like in parser.Lex.) -/
 def parse (ts : List Tok) : Option Expr := parseFuel (fuelFor ts) ts
 
+/-! ## lexer-consistent token streams: what the real lexer can hand to the parser -/
+
+def isNumKind : WKind → Bool
+  | .num _ _ _ => true
+  | _ => false
+
+/-- outside braces the kind of a word token is the one the keyword table / first character / colon give its text -/
+def wordOk (k : WKind) (t : String) : Bool :=
+  match k with
+  | .num _ _ _ => isNumKind (classifyKind t)
+  | k => classifyKind t == k
+
+/-- a token the lexer can produce, other than a duration that rounds to 0 seconds (known finding zero-duration:
+    `0s400ms` is lexed and accepted by parseDuration, but no literal denotes it after rounding) -/
+def tokOk : Tok → Bool
+  | .word k t => wordOk k t
+  | .dur (some n) => n != 0
+  | _ => true
+
 /-! ## well-formed trees: the shapes the parser can produce (hypothesis of the round-trip theorem; the driver
      checks it on every tree the model parser returns) -/
 
@@ -694,6 +715,10 @@ def stopsBefore : Expr → Nat → Bool
   | .un _ x, q => decide (q < unaryOperandPrec) && stopsBefore x q
   | .num n, q => !n.neg || decide (q < unaryOperandPrec)
   | _, _ => true
+
+def isVec : Expr → Bool
+  | .vec _ => true
+  | _ => false
 
 def isNum : Expr → Bool
   | .num _ => true
